@@ -32,7 +32,7 @@ func (c08) Assumptions() []string {
 	}
 }
 func (c08) Required(tier string) []string {
-	return []string{"strategy-typed", "strategy-generic", "strategy-skip", "strategy-skipfast", "strategy-decline", "strategy-nested", "strategy-int", "buffer-shared-reentrant", "buffer-per-depth", "direct-failed-readall-checked", "escaped-key-decoded", "nested-depth>=3"}
+	return []string{"strategy-typed", "strategy-generic", "strategy-skip", "strategy-skipfast", "strategy-decline", "strategy-nested", "strategy-int", "buffer-shared-reentrant", "buffer-per-depth", "direct-failed-readall-checked", "escaped-key-decoded", "nested-depth>=3", "buffers-with-history"}
 }
 
 type skippedMarker struct{}
@@ -345,6 +345,26 @@ func (c08) Gen(r *Rand, sc *Scenario, tier string) {
 	sc.Docs = []Doc{d}
 	n := r.Range(2, 6)
 	var ops []Op
+	if r.Chance(1, 3) {
+		// the Buffers the decoders share have a history: earlier calls on other documents,
+		// including failing and depth-limited ones (Buffer reuse is the documented style)
+		k := r.Range(1, 3)
+		for i := 0; i < k; i++ {
+			var dd Doc
+			switch r.Pick(2, 2, 1, 1) {
+			case 0:
+				dd = genDoc(r, "toodeep")
+			case 1:
+				dd = genDoc(r, "deep")
+			case 2:
+				dd = genMutated(r, "small")
+			default:
+				dd = docRep("container-deep-members", `[`, 1, deepDoc(r.Intn(3), []int{9999, 10001, 12000}[r.Intn(3)], "1").Bytes(), 1, `,1]`, 1)
+			}
+			sc.Docs = append(sc.Docs, dd)
+			ops = append(ops, Op{Kind: "prior-use", Doc: len(sc.Docs) - 1, A: r.Intn(5), B: r.Intn(2)})
+		}
+	}
 	for i := 0; i < n; i++ {
 		op := Op{Kind: "compose", Doc: 0, A: r.Intn(3)}
 		if i == 0 || r.Chance(1, 3) {
@@ -381,11 +401,32 @@ func (c08) Exec(sc *Scenario, st *Stats) *Violation {
 	if direct.Panic != "" {
 		return nil // totality is C10's
 	}
+	// Buffers live for the whole scenario: decoders that ask for a shared / per-depth Buffer get these
+	shared := &rjson.Buffer{}
+	var perDepth []*rjson.Buffer
 	shallow := bracketDepth(d.Bytes()) <= 9000 // clearly below the depth limit, whose exact position is C03's business
 	st.evi("direct", b2i(direct.OK))
 	for oi, op := range sc.Tasks[0] {
+		if op.Kind == "prior-use" {
+			// an earlier call of some buffer-taking function on another document, with the shared Buffers
+			pd := sc.Docs[op.Doc].Bytes()
+			targets := []*rjson.Buffer{shared}
+			for len(perDepth) < 3 {
+				perDepth = append(perDepth, &rjson.Buffer{})
+			}
+			if op.B == 1 {
+				targets = append(targets, perDepth[0], perDepth[1], perDepth[2])
+			}
+			for _, b := range targets {
+				x := &opCtx{st: st, tape: NewTape(nil), buf: b, quiet: true}
+				runAPI(bufOps[op.A%len(bufOps)], x, pd)
+			}
+			st.probe("buffers-with-history")
+			st.evi("prior", op.A)
+			continue
+		}
 		data := d.Bytes()
-		c := &composer{tape: NewTape(op.Tape), st: st, bufMode: op.A, readAll: op.B == 1}
+		c := &composer{tape: NewTape(op.Tape), st: st, bufMode: op.A, readAll: op.B == 1, shared: shared, perDepth: perDepth}
 		st.evi("prog", op.A*2+op.B)
 		var val interface{}
 		var p int
@@ -399,6 +440,7 @@ func (c08) Exec(sc *Scenario, st *Stats) *Violation {
 			}()
 			val, p, err = c.value(data, 0, false)
 		}()
+		perDepth = c.perDepth
 		viol := func(class, detail string) *Violation {
 			return &Violation{Class: class, Task: 0, Op: oi, Sig: "C08/" + class,
 				Detail: fmt.Sprintf("composition decoder %d (buffers=%d readAll=%v tape %s) on %q: %s", oi, op.A, c.readAll, clipInts(op.Tape, 16), clip(string(data), 100), detail)}
